@@ -732,7 +732,9 @@ class _NameChecks(SyntaxRule):
     message_none = 'cannot assign to None'
 
     def is_issue(self, leaf):
-        self._normalizer.context.add_name(leaf)
+        if self._normalizer.version < (3, 12) or leaf.search_ancestor('type_params') is None:
+            # Type parameters (and their bounds) live in a scope of their own.
+            self._normalizer.context.add_name(leaf)
 
         if leaf.value == '__debug__' and leaf.is_definition():
             return True
